@@ -159,6 +159,11 @@ func (r *rw) stmts(list []ast.Stmt) []ast.Stmt {
 						Lhs: []ast.Expr{&ast.SelectorExpr{X: se.X, Sel: ast.NewIdent("MaxTableSize")}},
 						Tok: token.ASSIGN,
 						Rhs: []ast.Expr{&ast.BasicLit{Kind: token.INT, Value: "1 << 20"}},
+					}, &ast.AssignStmt{
+						// likewise the value log file that is created, truncated to its full size and mmapped on every Open
+						Lhs: []ast.Expr{&ast.SelectorExpr{X: se.X, Sel: ast.NewIdent("ValueLogFileSize")}},
+						Tok: token.ASSIGN,
+						Rhs: []ast.Expr{&ast.BasicLit{Kind: token.INT, Value: "1 << 21"}},
 					})
 				}
 			}
@@ -352,7 +357,7 @@ func (r *rw) goStmt(g *ast.GoStmt) ast.Stmt {
 	inner := &ast.CallExpr{Fun: fun, Args: newArgs, Ellipsis: call.Ellipsis}
 	wrapped := &ast.ExprStmt{X: &ast.CallExpr{
 		Fun: &ast.SelectorExpr{X: ast.NewIdent("vrt"), Sel: ast.NewIdent("Go")},
-		Args: []ast.Expr{&ast.FuncLit{
+		Args: []ast.Expr{&ast.BasicLit{Kind: token.STRING, Value: strconv.Quote(r.base + ":" + strings.SplitN(r.fn, ".", 2)[0])}, &ast.FuncLit{
 			Type: &ast.FuncType{Params: &ast.FieldList{}},
 			Body: &ast.BlockStmt{List: []ast.Stmt{&ast.ExprStmt{X: inner}}},
 		}},
